@@ -15,6 +15,7 @@ import (
 	"strconv"
 	"strings"
 	"syscall"
+	"time"
 
 	zlint "github.com/zmap/zlint/v3"
 	"github.com/zmap/zlint/v3/lint"
@@ -76,6 +77,16 @@ type histState struct {
 	clock        int64           // simulated clock (fine-grain build, clock mode); 0 = real clock
 	clockReads   map[string]int  // clock reads of the code under test since the last lint call began, by site
 }
+
+// opHangLimit bounds one library call (ZSIM_OP_HANG_S overrides it, for tests of the watchdog).
+var opHangLimit = func() time.Duration {
+	if v := os.Getenv("ZSIM_OP_HANG_S"); v != "" {
+		if n, err := strconv.Atoi(v); err == nil && n > 0 {
+			return time.Duration(n) * time.Second
+		}
+	}
+	return 30 * time.Second
+}()
 
 func (h *histState) violate(v Violation) {
 	h.viol = append(h.viol, v)
@@ -286,7 +297,7 @@ func (h *histState) step(i int, op *Op) {
 func (h *histState) lintCall(i int, p *Parsed, reg lint.Registry, path string, perm uint64, sel map[string]bool) (cs *CanonSet, partial bool) {
 	cs = &CanonSet{Results: map[string]Res{}}
 	var rs *zlint.ResultSet
-	func() {
+	call := func() {
 		defer func() {
 			if r := recover(); r != nil {
 				cs.Panic = fmt.Sprint(r)
@@ -347,7 +358,24 @@ func (h *histState) lintCall(i int, p *Parsed, reg lint.Registry, path string, p
 				cs.Results[n] = resOf(l.Execute(p.Cert, cfg))
 			}
 		}
+	}
+	// bounded liveness, per call: the library call runs on its own goroutine; a call that has not
+	// returned after opHangLimit (a full-registry lint takes milliseconds) is reported as a hang
+	// and ends the run - nothing later in this process can be trusted to make progress
+	done := make(chan struct{})
+	go func() {
+		defer close(done)
+		call()
 	}()
+	select {
+	case <-done:
+	case <-time.After(opHangLimit):
+		h.ctr.inc("op_hang")
+		h.aborted = true
+		h.violate(Violation{Property: "C01", Class: "hang", Op: i, Site: kindNames[p.Kind] + "/" + path,
+			Detail: fmt.Sprintf("the %s lint call of op %d (path %q) did not return within %v", kindNames[p.Kind], i, path, opHangLimit)})
+		return &CanonSet{Results: map[string]Res{}, Hung: true}, true
+	}
 	if h.clock != 0 {
 		for _, site := range sortedKeys(h.clockReads) {
 			h.ctr.add("clock_read/"+site, h.clockReads[site])
@@ -478,6 +506,9 @@ func (h *histState) doLint(i int, op *Op) {
 	}
 	m := h.mregs[op.Reg]
 	cs, partial := h.lintCall(i, p, h.regs[op.Reg], path, op.Perm, m.Sel)
+	if cs.Hung {
+		return
+	}
 	o.linted = true
 	h.ctr.inc("lint_path_" + path)
 	h.ctr.inc("lint_kind_" + kindNames[o.spec.Kind])
@@ -523,6 +554,9 @@ func (h *histState) doRepeat(i int, op *Op) {
 			}
 		}
 		cs, _ := h.lintCall(i, o.parsed, h.regs[op.Reg], "ex", 0, m.Sel)
+		if cs.Hung {
+			return
+		}
 		if first == nil {
 			first = cs
 			continue
